@@ -15,6 +15,9 @@ var encCodecs = []string{"base64", "sha256", "json", "yaml", "toml", "json-prett
 
 // encValue: scalar values, flat and nested maps and lists with list-valued
 // and empty-string entries; $-free (DESIGN.md Appendix B).
+// wideValues: the next generated value is in the large regime (long lists, many keys)
+var wideValues = false
+
 func encValue(g *gen.G, d int) any {
 	sc := func() any {
 		return []any{"abc", "", 42, 1.5, true, "a b", "x=y", -7, "é", false, 0.1}[g.N(11)]
@@ -22,10 +25,18 @@ func encValue(g *gen.G, d int) any {
 	if d <= 0 || g.P(0.3) {
 		return sc()
 	}
+	wide := wideValues && d >= 2
 	if g.P(0.5) {
 		m := map[string]any{}
-		for i := g.N(4); i > 0; i-- {
+		nk := g.N(4)
+		if wide {
+			nk = 10 + g.N(25)
+		}
+		for i := nk; i > 0; i-- {
 			k := g.Pick([]string{"a", "b", "k", "opt", "e"})
+			if wide {
+				k = fmt.Sprintf("%s%02d", k, g.N(40))
+			}
 			switch g.N(4) {
 			case 0:
 				m[k] = []any{sc(), sc()}
@@ -44,7 +55,11 @@ func encValue(g *gen.G, d int) any {
 		return m
 	}
 	l := []any{}
-	for i := g.N(4); i > 0; i-- {
+	nl := g.N(4)
+	if wide {
+		nl = 12 + g.N(40)
+	}
+	for i := nl; i > 0; i-- {
 		if g.P(0.4) {
 			l = append(l, encValue(g, d-1))
 		} else {
@@ -79,6 +94,7 @@ func C14(r *Run) {
 	g := gen.New(r.Seed*553105253 + 14)
 	n := r.Pick(1500, 30000)
 	for i := 0; i < n; i++ {
+		wideValues = i%15 == 14 // every 15th value in the large regime
 		v := encValue(g, 2)
 		switch g.N(5) {
 		case 0, 1: // a random stack of up to three transforms
